@@ -829,7 +829,21 @@ class W3World(World):
         b = self.brokers[d]
         if not b['merged']:
             raise SkipStep()
-        gid = b['cbm'].snapshot()
+        try:
+            gid = b['cbm'].snapshot()
+        except Exception as e:
+            self.flag('C14', 'rollback_restores', {'after': 'snapshot', 'symptom': 'raised', 'exc': type(e).__name__},
+                      'taking a snapshot of the combined model raised %s: %s' % (type(e).__name__, str(e)[:200]))
+            return 'raised'
+        for x in [x for x in b['snaps'] if x[0] == gid]:
+            # the store now holds the new snapshot under the id of an outstanding one: that one can no longer be
+            # rolled back to (harmless only if nothing changed in between)
+            if canon(x[3]) != canon(self.state(b['cbm'].graph_id)):
+                self.flag('C14', 'rollback_restores', {'after': 'snapshot', 'symptom': 'snapshot_overwritten'},
+                          'a second snapshot was stored under the id %s of an outstanding snapshot of a different '
+                          'combined model, which is thereby lost' % gid)
+                return 'ok'
+            b['snaps'].remove(x)
         b['snaps'].append((gid, dict(b['merged']), dict(b['merged_by_am']), self.state(b['cbm'].graph_id)))
         if canon(self.state(gid)) != canon(self.state(b['cbm'].graph_id)):
             self.flag('C14', 'rollback_restores', {'after': 'snapshot'}, 'a snapshot differs from the combined model')
@@ -841,7 +855,12 @@ class W3World(World):
         if s['snap'] >= len(b['snaps']):
             raise SkipStep()
         gid, merged, by_am, st = b['snaps'].pop(s['snap'])
-        b['cbm'].rollback(graph_id=gid)
+        try:
+            b['cbm'].rollback(graph_id=gid)
+        except Exception as e:
+            self.flag('C14', 'rollback_restores', {'after': 'explicit', 'symptom': 'raised', 'exc': type(e).__name__},
+                      'rolling back to snapshot %s raised %s: %s' % (gid, type(e).__name__, str(e)[:200]))
+            return 'raised'
         b['merged'], b['merged_by_am'] = merged, by_am
         now = self.state(b['cbm'].graph_id)
         if canon(now) != canon(st):
